@@ -117,3 +117,25 @@ package webrtc
 //@ props C30
 //@ timeout 45
 //@ requires r != nil && remoteTrack != nil && repairInterceptor != nil
+
+// Packets on an SSRC nobody announced (runs on a goroutine of the undeclared-media processor: a
+// panic kills the process). Claimed: only the first part of the function — the scan of the
+// remote description's tracks for the SSRC — up to the first call of handleUndeclaredSSRC. The
+// rest (probing the stream, header-extension lookup, receiver set-up) needs assumed contracts
+// on pion/srtp, the media engine and the receivers and is NOT claimed.
+// Assumed (not verified: the function is only under the bounded stand-in): trackDetailsFromSDP
+// reads the description and allocates its result; it writes no memory that existed before.
+//@ func trackDetailsFromSDP
+//@ trusted
+//@ props C30
+//@ modifies nothing
+//@ func slices.Contains[[]github.com/pion/webrtc/v4.SSRC github.com/pion/webrtc/v4.SSRC]
+//@ trusted
+//@ props C30
+//@ modifies nothing
+//@ func (*PeerConnection).handleIncomingSSRC
+//@ props C30
+//@ safetybefore (*PeerConnection).handleUndeclaredSSRC
+//@ requires pcValid(pc)
+// (stored remote descriptions have been parsed: SetRemoteDescription stores only after Unmarshal)
+//@ requires (pc.pendingRemoteDescription != nil ==> pc.pendingRemoteDescription.parsed != nil) && (pc.currentRemoteDescription != nil ==> pc.currentRemoteDescription.parsed != nil)
